@@ -530,13 +530,17 @@ fn run_encoder(case: &Case, attempts: NonZeroUsize) -> Result<(), String> {
                 // other allocation in between (the bytes read must be kept alive by the output alone)
                 enc.consumer().arena().flush_cache();
             }
-            let more: &[u8] = &[0x71, 0x72, 0x73];
-            let mut reader2 = ScriptReader::new(&[Sym::D1, Sym::DAll], more);
-            let got2 = enc.encode_read(&mut reader2, 3, NonZeroUsize::MAX);
-            let want2 = judge_trace(&reader2, 3, usize::MAX)?;
-            match (&got2, &want2.result) {
-                (Ok(n), Ok(m)) if n == m => message.extend_from_slice(&more[..*n]),
-                (g, w) => return Err(format!("a second encode_read on the same encoder (the reader delivers 1 byte, then the rest) returned {:?} expected {:?}", g.as_ref().map_err(kind_of), w)),
+            // (only for scripts of even length: for the others the suffix follows the first read at
+            // once, so that whatever that read left behind meets the very next bytes)
+            if case.script.len() % 2 == 0 {
+                let more: &[u8] = &[0x71, 0x72, 0x73];
+                let mut reader2 = ScriptReader::new(&[Sym::D1, Sym::DAll], more);
+                let got2 = enc.encode_read(&mut reader2, 3, NonZeroUsize::MAX);
+                let want2 = judge_trace(&reader2, 3, usize::MAX)?;
+                match (&got2, &want2.result) {
+                    (Ok(n), Ok(m)) if n == m => message.extend_from_slice(&more[..*n]),
+                    (g, w) => return Err(format!("a second encode_read on the same encoder (the reader delivers 1 byte, then the rest) returned {:?} expected {:?}", g.as_ref().map_err(kind_of), w)),
+                }
             }
         }
     }
@@ -624,7 +628,7 @@ fn run_decoder(case: &Case, attempts: NonZeroUsize) -> Result<(), String> {
             }
             // A SECOND read on the same decoder, whatever became of the first one: the reader now has
             // data; it must be called and what it delivers must be decoded.
-            if fed + 3 <= encoded.len() {
+            if fed + 3 <= encoded.len() && case.script.len() % 2 == 0 {
                 let mut reader2 = ScriptReader::new(&[Sym::D1, Sym::DAll], &encoded[fed..fed + 3]);
                 let got2 = dec.decode_read(&mut reader2, 3, NonZeroUsize::MAX);
                 let want2 = judge_trace(&reader2, 3, usize::MAX)?;
